@@ -100,6 +100,10 @@ func (c *Ctx) fn(rule, name string) *ssa.Function {
 		return nil
 	}
 	c.touch(f)
+	if g := delegateOf(f); g != f {
+		c.touch(g)
+		return g
+	}
 	return f
 }
 
@@ -110,6 +114,10 @@ func (c *Ctx) fnOpt(name string) *ssa.Function {
 		return nil
 	}
 	c.touch(f)
+	if g := delegateOf(f); g != f {
+		c.touch(g)
+		return g
+	}
 	return f
 }
 
